@@ -2,7 +2,7 @@
    See Model.v for the vocabulary (oracles, ghost [wire] = bytes the peer receives). *)
 From Coq Require Import List ZArith Bool.
 Import ListNotations.
-Require Import V.C36.Model V.C36.Proofs.
+Require Import V.C36.Model V.C36.Proofs V.C36.ViaC24.
 Open Scope Z_scope.
 
 (* CLIENT STACK, transmit.  Over every history of enqueues and service passes and every send
@@ -44,6 +44,21 @@ Theorem connection_tx_drains : forall c orc,
   txes c' = [] /\ cut c' = false /\ wire c' = wire c ++ concat (txes c).
 Proof. exact conn_service_drains. Qed.
 Print Assumptions connection_tx_drains.
+
+(* COMPOSITION WITH C24.  C36's self-contained model of Incomer.serviceTxes (conn_tx) IS C24's
+   tx_loop for the Incomer class: from any C24 state s that is not cut off, for every deque tx
+   and every C36 oracle, C24's loop run on the translated oracle (Acc n -> Sent n, Cut -> SCut,
+   padded with over-long Sent counts for C36's "exhausted oracle accepts everything") ends
+   without exception in a state with exactly C36's deque, accepted bytes and cutoff flag.  So the
+   connection-level facts used by server_tx_per_peer are C24's facts about the same function. *)
+Theorem incomer_tx_model_is_C24 : forall tx orc s N k,
+  C24.cutoff s = false -> (forall d, In d tx -> (length d <= N)%nat) -> (length tx <= k)%nat ->
+  forall tx' w' cu o', conn_tx tx orc (C24.accepted s) = (tx', w', cu, o') ->
+  exists s', C24.tx_loop C24.KIncomer w0 tx (map tr orc ++ pad N k) s = (s', false) /\
+             C24.txes s' = tx' /\ C24.accepted s' = w' /\ C24.cutoff s' = cu /\
+             C24.queued s' = C24.queued s.
+Proof. exact conn_tx_is_C24. Qed.
+Print Assumptions incomer_tx_model_is_C24.
 
 (* RECEIVE, client stack.  Over every sequence of service calls and every recv oracle: the
    received packets concatenated ++ the buffer = exactly the bytes read from the socket, in
